@@ -119,7 +119,9 @@ def gen_cmask(rng, quick):
                       "excl": rng.random() < 0.3, "ties": rng.random() < 0.4,
                       "a": rng.choice([2.0, 0.5, 4.0, 1.0, 8.0, 3.0]),
                       "b": rng.choice([0.0, 16.0, -8.0, 100.0, 1.0]),
-                      "ref": rng.random() < 0.4, "dtype": rng.choice(VDTYPES)})
+                      "ref": rng.random() < 0.4, "dtype": rng.choice(VDTYPES),
+                      # mean-centred / contrast volumes: negative and positive values around exact zeros
+                      "signed": rng.random() < 0.35})
     return cases
 
 
@@ -409,13 +411,16 @@ def run_cc(c):
 
 
 # ---------------------------------------------------------------------- compute_mask
-def _volume(rs, shape, ties, excl, dtype="float64", shift=None):
-    """a volume with a bright block: background 0..39, block +64 (distinct values unless ties)"""
+def _volume(rs, shape, ties, excl, dtype="float64", shift=None, signed=False):
+    """a volume with a bright block: background 0..39, block +64 (distinct values unless ties); `signed`
+    (floating-point volumes only) centres the values so that negative and positive ones surround the zeros"""
     v = rs.randint(0, 40, size=shape).astype(float)
     if not ties:
         v = v + np.arange(v.size).reshape(shape) / 1024.0
     lo = [s // 4 for s in shape] if shift is None else shift
     v[lo[0]:lo[0] + shape[0] // 2 + 1, lo[1]:lo[1] + shape[1] // 2 + 1, lo[2]:lo[2] + shape[2] // 2 + 1] += 64
+    if signed and np.dtype(dtype).kind == "f":
+        v = v - 30.25
     if excl:
         v[rs.rand(*shape) < 0.2] = 0
     dt = np.dtype(dtype)
@@ -434,7 +439,7 @@ def run_cmask(c):
     rs = np.random.RandomState(c["seed"])
     shape = c["shape"]
     dtype = c.get("dtype", "float64")
-    v = _volume(rs, shape, c["ties"], c["excl"], dtype)
+    v = _volume(rs, shape, c["ties"], c["excl"], dtype, signed=c.get("signed", False))
     ref = None
     if c["ref"]:
         ref = rs.randint(0, 100, size=shape)
